@@ -127,4 +127,22 @@ PROPS = {
         'slice': [r'hub\.withdraw', r'env\.advance', r'env\.slashu', r'env\.donate', r'tok\.send\.unbond', r'tok\.sendfrom\.unbond'],
         'explanation': 'payout = recorded share, single payment, order independence and the single-batch allocation bound proved; release groups of many batches with slashed unbonding stake, donations, many users per batch: released claims vs hub balance after every step, payout recomputed, second withdrawal, unfunded-claim probe (clone with extra coins)',
     },
+    'C13': {
+        'corpus': ['reg-remove-zero-delegation.ops'],
+        'families': [gen('registry', 40, 120), gen('mixed', 15, 120)],
+        'slice': [r'reg\..*', r'hub\.redel', r'hub\.bond', r'hub\.bondst', r'hub\.ugi', r'env\.noredel'],
+        'explanation': 'registry removal / hub proxy / chain redelegation proved step by step (plan sums to the whole delegation via C12, targets still registered); end-to-end RemoveValidator transactions on the minichain with pending rewards, in-flight batches, blocked redelegations, removal and re-addition sequences',
+    },
+    'C19': {
+        'corpus': ['D3.ops'],
+        'families': [gen('rewards', 40, 120), gen('registry', 15, 120), gen('mixed', 15, 120)],
+        'slice': [r'hub\.ugi', r'disp\..*', r'reward\.ugi', r'hub\.bondrw', r'reg\.remove', r'env\.accrue'],
+        'explanation': 'hub / distribution / dispatcher / re-bond / reward-index steps proved separately and composed; whole UpdateGlobalIndex transactions (incl. those triggered by validator removal) on the minichain: pending rewards zero afterwards, dispatcher empty, stSei pool up by exactly the re-bonded amount, no mint, claims and hub balance untouched, accrued grows by the delivered amount within dust',
+    },
+    'C09': {
+        'corpus': ['D6b.ops', 'D5.ops'],
+        'families': [gen('mixed', 25, 100, deep=True), gen('dust', 20, 100, deep=True), gen('release', 15, 100, deep=True), gen('stubs', 20, 100, deep=True)],
+        'slice': [r'tok\.send\.unbond', r'tok\.sendfrom\.unbond', r'hub\.withdraw', r'hub\.bond', r'hub\.bondst', r'tok\.send\.convert', r'tok\.transfer', r'reward\.claim', r'env\.oracle', r'env\.swap'],
+        'explanation': 'hub-side liveness of unbond proved from explicit invariant premises; non-interference proved structurally (exit handlers do not read stub state); on the implementation: dry-run unbond of every holder on cloned states after every step, withdrawal after epoch+unbonding on clones, every exit operation re-executed under failing / garbage swap and oracle stubs and compared, calls to swap/oracle from exit paths flagged',
+    },
 }
